@@ -275,13 +275,17 @@ class Ctx:
         ref = z3.IntVal(addr)
         return VRef(ref, (clsname,))
 
-    def assume_input_object(self, v, soft=False):
-        """type invariant of an object that existed before the call"""
-        self.assume(z3.And(v.t >= 0, v.t < Ctx.BASE))
+    def input_object_formula(self, v):
+        f = [v.t >= 0, v.t < Ctx.BASE]
         if v.classes:
             ids = [self.engine.class_id(c) for c in v.classes]
             ca = self.field_array('__class__')
-            self.assume(z3.Or(*[z3.Select(ca, v.t) == i for i in ids]))
+            f.append(z3.Or(*[z3.Select(ca, v.t) == i for i in ids]))
+        return z3.And(*f)
+
+    def assume_input_object(self, v, soft=False):
+        """type invariant of an object that existed before the call"""
+        self.assume(self.input_object_formula(v))
 
     def class_of(self, ref):
         """concrete class name of the object behind VRef (forks if needed)"""
